@@ -120,6 +120,10 @@ func (store *Store) Put(ctx context.Context, key string, content []byte) error {
 	if err != nil {
 		return err
 	}
+	if err := hook("before-write", key); err != nil {
+		wrCommitter("")
+		return err
+	}
 	// Write, all at once.
 	// Note we can ignore the size return, because the contract of io.Writer states "Write must return a non-nil error if it returns n < len(p)".
 	_, err = wr.Write(content)
@@ -162,10 +166,19 @@ func (store *Store) PutStream(ctx context.Context) (io.Writer, func(string) erro
 		if err != nil {
 			return nil, nil, fmt.Errorf("fsstore.BeginWrite: could not create a staging file: %w", err)
 		}
+		if err := hook("staged", stagepath); err != nil {
+			return nil, nil, err
+		}
 		// Okay, got a handle.  Return it... and its commit closure.
 		return f, func(key string) error {
+			if err := hook("before-close", stagepath); err != nil {
+				return err
+			}
 			// Close the staging file.
 			if err := f.Close(); err != nil {
+				return err
+			}
+			if err := hook("closed", stagepath); err != nil {
 				return err
 			}
 			if key == "" {
@@ -239,6 +252,9 @@ func CheckAndMakeBasepath(basepath string) error {
 // (An alternative approach would be to blindly mkdir the parent segments every time,
 // rather than do this backwards stepping.  Have not benchmarked these against each other.)
 func move(stagepath, destpath string) error {
+	if err := hook("before-rename", stagepath, destpath); err != nil {
+		return err
+	}
 	err := os.Rename(stagepath, destpath)
 	if os.IsNotExist(err) {
 		// This probably means parent of destpath doesn't exist yet, so we'll make it.
@@ -249,9 +265,17 @@ func move(stagepath, destpath string) error {
 		if err := haveDir(filepath.Dir(destpath)); err != nil {
 			return err
 		}
+		if err := hook("before-rename-retry", stagepath, destpath); err != nil {
+			return err
+		}
 		// Now try again.
 		//  (And don't return quite yet; there's one more check to do, because someone might've raced us.)
 		err = os.Rename(stagepath, destpath)
+	}
+	if err == nil {
+		if err := hook("renamed", stagepath, destpath); err != nil {
+			return err
+		}
 	}
 	if os.IsExist(err) {
 		// Oh!  Some content is already there?
@@ -267,6 +291,9 @@ func move(stagepath, destpath string) error {
 // except this function is going to assume if it exists, it's a dir,
 // and that saves us some stat syscalls.
 func haveDir(pth string) error {
+	if err := hook("before-mkdir", pth); err != nil {
+		return err
+	}
 	err := os.Mkdir(pth, 0777)
 	if os.IsNotExist(err) {
 		if err := haveDir(filepath.Dir(pth)); err != nil {
